@@ -979,6 +979,12 @@ func (e *Env) trCall(x *ECall) TV {
 		ts = append(ts, a.T)
 	}
 	for _, h := range pd.Reads {
+		if strings.TrimSpace(h) == "$alloc" {
+			// the set of allocated objects of the state the function is evaluated in
+			sorts = append(sorts, e.st.alloc.Sort)
+			ts = append(ts, e.st.alloc)
+			continue
+		}
 		hn, hs := e.vc.resolveHeap(h, pkg)
 		ht := e.st.heap(e.vc, hn, hs)
 		sorts = append(sorts, ht.Sort)
